@@ -1,6 +1,7 @@
 package humanize
 
 import (
+	"math"
 	"strconv"
 )
 
@@ -18,7 +19,7 @@ func ByteSize(n uint64) string {
 
 // AlwaysByteSize formats bytesize (iec, power of 2) without checking `Enabled` first
 func AlwaysByteSize(n uint64, precision int) string {
-	return unitize(int64(n), 1024, precision, " ", iecSizes[:])
+	return unitizeu(n, 1024, precision, " ", iecSizes[:])
 }
 
 // Bytesize using SI (1000) units. If enabled
@@ -31,7 +32,7 @@ func ByteSizeSi(n uint64) string {
 
 // Bytesize using SI (1000) units, even if disabled
 func AlwaysByteSizeSi(n uint64, precision int) string {
-	return unitize(int64(n), 1000, precision, " ", siSizes[:])
+	return unitizeu(n, 1000, precision, " ", siSizes[:])
 }
 
 // Downscale numbers by thousands (unless disabled)
@@ -61,7 +62,18 @@ func unitize(n, step int64, precision int, delim string, units []string) string 
 		return string(buf)
 	}
 
-	nf, sf := float64(n), float64(step)
+	return unitizef(float64(n), float64(step), precision, delim, units, buf)
+}
+
+// unitize for unsigned values, which may not fit an int64
+func unitizeu(n uint64, step int64, precision int, delim string, units []string) string {
+	if n <= math.MaxInt64 {
+		return unitize(int64(n), step, precision, delim, units)
+	}
+	return unitizef(float64(n), float64(step), precision, delim, units, make([]byte, 0, 16))
+}
+
+func unitizef(nf, sf float64, precision int, delim string, units []string, buf []byte) string {
 	rank := 0
 	for (nf <= -sf || nf >= sf) && rank < len(units)-1 {
 		nf /= sf
